@@ -114,6 +114,22 @@ var lineFaults = []faultKind{
 	{"modulo-by-zero-after-chain", "{{ 1\n* 2\n* 3\n% 0 }}", true, 3},
 	{"mistyped-operand-in-middle-of-chain", "{{ 1\n+ \"a\"\n+ 2 }}", true, 1},
 	{"comparison-after-chain", "{{ 1\n+ 2\n< \"b\" }}", true, 2},
+	// an object literal as directive argument, written over several lines, with a comma missing: the token that
+	// stands where the comma belongs is the unexpected one
+	{"unexpected-token-in-component-arguments", "@component(\"c\", {a: 1,\n b: 2\n c: 3})", false, 2},
+	{"unexpected-token-in-component-arguments-own-lines", "@component(\"c\", {\n  a: 1\n  b: 2\n})", false, 2},
+	{"unexpected-token-in-component-arguments-nested", "@component(\"c\", {a: {x: 1\n y: 2},\n c: 3})", false, 1},
+	{"unexpected-token-in-dump-arguments", "@dump({a: 1\n b: 2})", false, 1},
+	{"unexpected-token-in-condition-object", "@if({a: 1\n b: 2}.a)x@end", false, 1},
+	{"unexpected-token-second-component-argument", "@component(\"c\",\n 5)", false, 1},
+	// an illegal character right behind a directive keyword, before its '(' and in front of bodies that span lines
+	{"illegal-character-after-elseif", "@if(true)\na\n@elseif~(1)\nb\nc\n@end", false, 2},
+	{"illegal-character-after-if", "@if~(true)\nb\nc\n@end", false, 0},
+	{"illegal-character-after-each", "@each#(q in [1])\nb\nc\n@end", false, 0},
+	{"illegal-character-after-for", "@for$(;;)\nb\n@break\n@end", false, 0},
+	{"illegal-character-after-breakif", "@each(q in [1])\n@breakIf~(true)\nb\n@end", false, 1},
+	{"illegal-character-after-component", "@component~(\"c\")\n@slot\nb\n@end\n@end", false, 0},
+	{"illegal-character-after-dump", "@dump#(1)\nb", false, 0},
 	// an unclosed string runs to the end of the input: its token ends on the line of the last byte
 	{"unclosed-string-to-end-of-input", "{{ \"never closed", false, -1},
 	{"unclosed-single-quoted-string-to-end-of-input", "@if('never closed", false, -1},
@@ -222,6 +238,38 @@ func init() {
 					w := lineWrappers[c.Rng.Intn(nw)]
 					src, line := buildLineCase(ps, w, f, []string{"", "lead ", "{{ 1 }}"}[c.Rng.Intn(3)])
 					judge(c, src, line, f)
+				}})
+			// constructs far down a long file: line numbers beyond 16 bits (and around other widths)
+			farLines := []int{255, 256, 32767, 32768, 65534, 65535, 65536, 65537, 70000, 131071, 131073, 200003}
+			secs = append(secs, core.Section{Name: "far-lines", Exhaustive: true, N: len(farLines) * nf,
+				Run: func(c *core.Ctx, i int) {
+					f := lineFaults[i%nf]
+					n := farLines[i/nf]
+					filler := []string{"\n", "row {{ 1 }}\n", "\r\n"}[i%3]
+					src, line := buildLineCase(nil, lineWrappers[i%nw], f, "")
+					src = strings.Repeat(filler, n) + src
+					if f.offset < 0 {
+						line = strings.Count(src, "\n")
+						if !strings.HasSuffix(src, "\n") {
+							line++
+						}
+					} else {
+						line += n
+					}
+					c.Input(map[string]any{"lines_before": n, "fault": f.name, "filler": filler})
+					got := evalString(c, src, nil)
+					c.Nontrivial(fmt.Sprint(n, f.name, i%3, i%nw))
+					if got.Panicked {
+						return
+					}
+					if got.Err == nil {
+						c.Violation("far-line:"+f.name+":no-error", fmt.Sprintf("the injected %s on line %d was not reported", f.name, line), map[string]any{"lines_before": n, "fault": f.src})
+						return
+					}
+					gl, _, ok := ErrLinePath(got.Err)
+					if !ok || gl > line || gl < line-faultSlack[f.name] {
+						c.Violation("far-line:"+f.name, fmt.Sprintf("%s on line %d was reported on line %d: %s", f.name, line, gl, ErrMessage(got.Err)), map[string]any{"lines_before": n, "filler": filler, "fault": f.src})
+					}
 				}})
 			// template trees: line and absolute path
 			secs = append(secs, core.Section{Name: "trees", N: nTree, Run: func(c *core.Ctx, i int) { lineTreeCase(c, i) }})
